@@ -21,9 +21,24 @@
 (*   classes  lists of removable paths that are the same attribute of      *)
 (*          different instances (same path once digit runs and PCI bus     *)
 (*          addresses are erased); the first ncore ones touch the core area *)
-(* Fault sets: none; single paths (striped); pairs of core paths for small *)
-(* snapshots; whole classes (striped); in simulation up to SimMax paths    *)
-(* and possibly a class.                                                   *)
+(*   feat   the feature classes of the snapshot (what its content makes     *)
+(*          special: CPU-less NUMA nodes, heterogeneous memory, KNL, sparse *)
+(*          numbering, offline CPUs, CPU kinds; or "plain")                 *)
+(*   inst   per path class (node.cpumap, node.distance, node.meminfo,      *)
+(*          node.hmat, cpu.topology, cpu.cache, cpu.online, cpu.kind, ...)  *)
+(*          a matrix rows[instance][attribute] of the removable paths that  *)
+(*          are an attribute of ONE numbered NUMA node / CPU instance       *)
+(*   types  the object types of the unmodified snapshot loaded with every   *)
+(*          type kept (found by a first pass of the recorder)               *)
+(* Fault sets: none; single paths (striped); per-instance attributes of    *)
+(* NUMA nodes and CPUs removed singly: every instance for the (feature     *)
+(* class, path class) pairs of Interesting, a few instances otherwise;     *)
+(* pairs of core paths for small snapshots; whole classes (striped); in    *)
+(* simulation up to SimMax paths and possibly a class.                     *)
+(* Configurations: component selection x filter preset, optionally followed *)
+(* by ONE type filter (type, filter) on a type the snapshot really has     *)
+(* (TargetModes: the type removed with the rest default / kept; the type   *)
+(* alone kept; the type kept only when structuring) x flag words.          *)
 (***************************************************************************)
 EXTENDS Snapshot, Json, IOUtils, TLC, Randomization
 
@@ -38,7 +53,16 @@ CONSTANTS TableFile,     \* ndjson file with the path tables
           Seed,
           FlagSeqs,      \* sequences of flag words run on each tuple
           CfgStride,     \* 1: every configuration on every fault set; n: one out of n (all of them on the empty fault set)
-          SimMode, SimMax
+          SimMode, SimMax,
+          InstFull,      \* FALSE: in an Interesting pair of a CPU path class every instance loses ONE attribute (the attribute
+                         \* rotates with the instance); TRUE: every instance loses every attribute on its own (at most InstMax per class)
+          InstMax,
+          NInstPlain,    \* how many instances lose an attribute on their own in a pair that is not Interesting
+          InstCfgs,      \* how many (component selection, preset) pairs a per-instance removal is run under
+          InstFlagSeqs,  \* flag words run on the per-instance removals and on the type-targeted configurations
+          TargetTypes,   \* types whose filter a targeted configuration sets
+          TargetModes,   \* sequence of <<preset, filter>>: the filter given to the type after the preset
+          TargetStride   \* 1: every mode for every type of the unmodified snapshot; n: the first mode and one out of n of the others
 
 Tabs == ndJsonDeserialize(TableFile)
 NSnap == Len(Tabs)
@@ -56,11 +80,18 @@ ASSUME /\ Sel \subseteq 1..NSnap
             /\ tab.ncore \in 0..Len(tab.classes)
             /\ \A c \in DOMAIN tab.classes : /\ Len(tab.classes[c]) >= 2
                                              /\ \A j \in DOMAIN tab.classes[c] : tab.removable[tab.classes[c][j]] = 1
-       /\ \A fs \in FlagSeqs : \A j \in DOMAIN fs : FlagsLegal(fs[j])
+            /\ SeqSet(tab.feat) \subseteq SnFeatureClasses /\ tab.feat # <<>>
+            /\ \A c \in DOMAIN tab.inst : /\ tab.inst[c].pc \in SnPathClasses
+                                          /\ \A i \in DOMAIN tab.inst[c].rows : /\ tab.inst[c].rows[i] # <<>>
+                                                                                /\ \A j \in DOMAIN tab.inst[c].rows[i] : tab.removable[tab.inst[c].rows[i][j]] = 1
+            /\ SeqSet(tab.types) \subseteq 0..(NTYPES - 1)
+       /\ \A fs \in FlagSeqs \cup InstFlagSeqs : \A j \in DOMAIN fs : FlagsLegal(fs[j])
+       /\ TargetTypes \subseteq SnTargetable
+       /\ \A m \in DOMAIN TargetModes : TargetModes[m][1] \in SnPresetSet /\ TargetModes[m][2] \in 0..3
 
 VARIABLES pc, sn, rs, how, cfg, todo, hist
 vars == <<pc, sn, rs, how, cfg, todo, hist>>
-NoCfg == [comp |-> "", filt |-> -1, flagseq |-> <<>>]
+NoCfg == [comp |-> "", filt |-> -1, tty |-> -1, tf |-> -1, flagseq |-> <<>>]
 
 \* striped selection of about n positions of a sequence
 SelIdx(seq, n) == IF n <= 0 THEN {}
@@ -83,6 +114,32 @@ ClassSel == [k \in 1..NSnap |-> IF k \notin Sel THEN {} ELSE
 CandSet == [k \in 1..NSnap |-> IF k \notin Sel THEN {} ELSE SeqSet(Tabs[k].cand) \cup SeqSet(Tabs[k].key)]
 RestSet == [k \in 1..NSnap |-> IF k \notin Sel THEN {} ELSE SeqSet(Tabs[k].rest)]
 
+\* ---- per-instance attributes (one file / symlink / directory below ONE numbered nodeN or cpuN) ----
+\* is the pair (a feature class of snapshot k, the path class of its c-th matrix) Interesting?
+Hot(k, c) == \E fc \in SeqSet(Tabs[k].feat) : SnInteresting(fc, Tabs[k].inst[c].pc)
+\* the attribute instance i loses when only one per instance is removed: it rotates with the instance
+Diag(row, i) == row[((i + Seed) % Len(row)) + 1]
+RowSet(rows, I) == UNION {SeqSet(rows[i]) : i \in I}
+InstPicks(k, c) ==
+  LET ic == Tabs[k].inst[c]  rows == ic.rows  n == Len(rows) IN
+  IF Hot(k, c) /\ (InstFull \/ ic.pc \in SnNodePathClasses)
+  THEN LET all == RowSet(rows, 1..n) IN
+       IF Cardinality(all) <= InstMax THEN all
+       ELSE {Diag(rows[i], i) : i \in 1..n} \cup {x \in all : (x + Seed) % ((Cardinality(all) \div InstMax) + 1) = 0}
+  ELSE IF Hot(k, c) THEN {Diag(rows[i], i) : i \in 1..n}
+  ELSE {Diag(rows[i], i) : i \in SelIdx(rows, NInstPlain)}
+InstOn == NInstPlain > 0 \/ InstFull              \* a run that enumerates other fault sets only turns both off
+InstSel == [k \in 1..NSnap |-> IF k \notin Sel \/ ~InstOn THEN {} ELSE UNION {InstPicks(k, c) : c \in DOMAIN Tabs[k].inst}]
+InstAll == [k \in 1..NSnap |-> IF k \notin Sel THEN {} ELSE UNION {RowSet(Tabs[k].inst[c].rows, DOMAIN Tabs[k].inst[c].rows) : c \in DOMAIN Tabs[k].inst}]
+\* the enumeration is exhaustive over the instances of every Interesting pair: each of them loses an attribute on its own
+ASSUME \A k \in Sel : \A c \in DOMAIN Tabs[k].inst :
+         (Hot(k, c) /\ InstOn) => \A i \in DOMAIN Tabs[k].inst[c].rows : SeqSet(Tabs[k].inst[c].rows[i]) \cap InstSel[k] # {}
+
+\* ---- type-targeted configurations: types of the unmodified snapshot whose filter the model sets on its own ----
+TargetSet == [k \in 1..NSnap |-> IF k \notin Sel THEN {} ELSE SeqSet(Tabs[k].types) \cap TargetTypes]
+\* a targeted configuration must differ from the preset it starts from
+TargetChanges(base, ty, f) == FilterLegal(ty, f) /\ SnCfgFilters(base, ty, f) # SnPresetFilters(base)
+
 RECURSIVE SumSet(_)
 SumSet(S) == IF S = {} THEN 0 ELSE LET x == CHOOSE y \in S : TRUE IN (x % 1000) + SumSet(S \ {x})
 Min2(a, b) == IF a < b THEN a ELSE b
@@ -101,6 +158,9 @@ RemoveOne ==
   /\ \/ /\ how = "none"
         /\ \E i \in SingleSel[sn] : rs' = {i} /\ hist' = Append(hist, <<"rm", i>>)
         /\ how' = "single"
+     \/ /\ how = "none"
+        /\ \E i \in InstSel[sn] : rs' = {i} /\ hist' = Append(hist, <<"rminst", i>>)
+        /\ how' = "inst"
      \/ /\ how = "single" /\ Small(sn) /\ rs \subseteq CandSet[sn]
         /\ \E i \in CandSet[sn] : /\ \A j \in rs : i > j
                                   /\ rs' = rs \cup {i} /\ hist' = Append(hist, <<"rm", i>>)
@@ -130,25 +190,52 @@ RemoveMany ==
   /\ UNCHANGED <<pc, sn, cfg, todo>>
 
 TopSet == [k \in 1..NSnap |-> IF k \notin Sel THEN {} ELSE SeqSet(Tabs[k].top)]
-CfgSelected(ci, fi) == \/ rs = {} \/ CfgStride = 1
-                       \/ (how = "single" /\ rs \subseteq TopSet[sn])
-                       \/ (SumSet(rs) + ci + fi + Seed) % CfgStride = 0
+CfgSelected(ci, fi) ==
+  IF how = "inst"
+  THEN \* InstCfgs consecutive (component selection, preset) pairs, starting at a pair that rotates with the removed path
+       LET n == Len(SnComps(Tabs[sn].kind)) * Len(SnPresets)
+           idx == (ci - 1) * Len(SnPresets) + (fi - 1)
+       IN (idx + n - ((SumSet(rs) + Seed) % n)) % n < InstCfgs
+  ELSE \/ rs = {} \/ CfgStride = 1
+       \/ (how = "single" /\ rs \subseteq TopSet[sn])
+       \/ (SumSet(rs) + ci + fi + Seed) % CfgStride = 0
 Configure ==
   /\ pc = "faults" /\ (SimMode => how # "none")
   /\ LET comps == SnComps(Tabs[sn].kind) IN
      \E ci \in (IF SimMode THEN {RandomElement(DOMAIN comps)} ELSE DOMAIN comps),
         fi \in (IF SimMode THEN {RandomElement(DOMAIN SnPresets)} ELSE DOMAIN SnPresets),
-        fs \in (IF SimMode THEN {RandomElement(FlagSeqs)} ELSE FlagSeqs) :
+        fs \in (IF SimMode THEN {RandomElement(FlagSeqs)} ELSE IF how = "inst" THEN InstFlagSeqs ELSE FlagSeqs),
+        \* simulation: every other faulted tuple also sets one type filter after the preset
+        tm \in (IF SimMode /\ TargetSet[sn] # {} THEN {RandomElement(0..(2 * Len(TargetModes)))} ELSE {0}),
+        ty \in (IF SimMode /\ TargetSet[sn] # {} THEN {RandomElement(TargetSet[sn])} ELSE {-1}) :
+       LET base == IF tm \in DOMAIN TargetModes THEN TargetModes[tm][1] ELSE SnPresets[fi]
+           tf == IF tm \in DOMAIN TargetModes /\ TargetChanges(base, ty, TargetModes[tm][2]) THEN TargetModes[tm][2] ELSE -1 IN
        /\ SimMode \/ CfgSelected(ci, fi)
-       /\ cfg' = [comp |-> comps[ci], filt |-> SnPresets[fi], flagseq |-> fs]
+       /\ cfg' = [comp |-> comps[ci], filt |-> base, tty |-> (IF tf = -1 THEN -1 ELSE ty), tf |-> tf, flagseq |-> fs]
        /\ todo' = fs
-       /\ hist' = Append(hist, <<"cfg", comps[ci], SnPresets[fi]>>)
+       /\ hist' = Append(hist, <<"cfg", comps[ci], base, IF tf = -1 THEN -1 ELSE ty, tf>>)
+  /\ pc' = "A"
+  /\ UNCHANGED <<sn, rs, how>>
+
+\* the unmodified snapshot under a preset followed by ONE type filter, for the types it really contains
+TargetSelected(k, ci, ty, m) == \/ TargetStride = 1
+                                \/ (m = 1 /\ ci = 1)
+                                \/ (m > 1 /\ (k + ci + ty + m + Seed) % TargetStride = 0 /\ (ci + k + ty + Seed) % Len(SnComps(Tabs[k].kind)) = 0)
+ConfigureTargeted ==
+  /\ pc = "faults" /\ ~SimMode /\ how = "none"
+  /\ LET comps == SnComps(Tabs[sn].kind) IN
+     \E ci \in DOMAIN comps, ty \in TargetSet[sn], m \in DOMAIN TargetModes, fs \in InstFlagSeqs :
+       /\ TargetChanges(TargetModes[m][1], ty, TargetModes[m][2])
+       /\ TargetSelected(sn, ci, ty, m)
+       /\ cfg' = [comp |-> comps[ci], filt |-> TargetModes[m][1], tty |-> ty, tf |-> TargetModes[m][2], flagseq |-> fs]
+       /\ todo' = fs
+       /\ hist' = Append(hist, <<"cfg", comps[ci], TargetModes[m][1], ty, TargetModes[m][2]>>)
   /\ pc' = "A"
   /\ UNCHANGED <<sn, rs, how>>
 
 Step(from, to, ev) == pc = from /\ pc' = to /\ hist' = Append(hist, ev) /\ UNCHANGED <<sn, rs, how, cfg>>
-LoadA   == todo # <<>> /\ Step("A", "B", <<"load", 0, cfg.filt, Head(todo)>>) /\ UNCHANGED todo
-LoadB   == todo # <<>> /\ Step("B", "X", <<"load", 1, cfg.filt, Head(todo)>>) /\ UNCHANGED todo
+LoadA   == todo # <<>> /\ Step("A", "B", <<"load", 0, cfg.filt, Head(todo), cfg.tty, cfg.tf>>) /\ UNCHANGED todo
+LoadB   == todo # <<>> /\ Step("B", "X", <<"load", 1, cfg.filt, Head(todo), cfg.tty, cfg.tf>>) /\ UNCHANGED todo
 XmlTrip == Step("X", "D", <<"xml_import", 0, 2>>) /\ UNCHANGED todo
 Destroy == /\ pc = "D" /\ todo # <<>>
            /\ pc' = (IF Tail(todo) = <<>> THEN "done" ELSE "A")
@@ -158,36 +245,42 @@ Destroy == /\ pc = "D" /\ todo # <<>>
 \* simulation prints a finished history from a last, never enabled, disjunct
 SimEnd == SimMode /\ pc = "done" /\ PrintT(<<"TUPLE", ToJson(hist)>>) /\ FALSE /\ UNCHANGED vars
 
-Next == Pick \/ RemoveOne \/ RemoveClass \/ RemoveMany \/ Configure \/ LoadA \/ LoadB \/ XmlTrip \/ Destroy \/ SimEnd
+Next == Pick \/ RemoveOne \/ RemoveClass \/ RemoveMany \/ Configure \/ ConfigureTargeted \/ LoadA \/ LoadB \/ XmlTrip \/ Destroy \/ SimEnd
 Spec == Init /\ [][Next]_vars
 SnView == <<pc, sn, rs, how, cfg, todo>>
 
 (* ---- invariants: about the enumeration itself ---- *)
 TypeOK == /\ pc \in {"pick", "faults", "A", "B", "X", "D", "done"}
           /\ sn \in 0..NSnap /\ (pc # "pick" => sn \in Sel)
-          /\ how \in {"none", "single", "pair", "class", "multi"}
+          /\ how \in {"none", "single", "inst", "pair", "class", "multi"}
           /\ (pc \in {"pick", "faults"}) = (cfg = NoCfg)
 \* only removable paths are ever removed: a numbered instance directory never is, on its own
 RuleOK == sn # 0 => FaultSetOK(Tabs[sn], rs)
 BudgetOK == /\ how = "none" => rs = {}
             /\ how = "single" => Cardinality(rs) = 1
+            \* a per-instance removal is one attribute of one numbered NUMA node / CPU
+            /\ how = "inst" => Cardinality(rs) = 1 /\ rs \subseteq InstAll[sn]
             /\ how = "pair" => Cardinality(rs) = 2 /\ Small(sn) /\ rs \subseteq CandSet[sn]
             /\ how = "class" => \E c \in DOMAIN Tabs[sn].classes : rs = SeqSet(Tabs[sn].classes[c])
             /\ how = "multi" => \E c \in {0} \cup DOMAIN Tabs[sn].classes :
                                   Cardinality(rs \ (IF c = 0 THEN {} ELSE SeqSet(Tabs[sn].classes[c]))) <= SimMax
 CfgOK == cfg # NoCfg => /\ cfg.comp \in SeqSet(SnComps(Tabs[sn].kind))
-                        /\ cfg.filt \in SnPresetSet /\ cfg.flagseq \in FlagSeqs
+                        /\ cfg.filt \in SnPresetSet /\ cfg.flagseq \in FlagSeqs \cup InstFlagSeqs
+                        \* a type filter is legal, changes the preset and names a type the unmodified snapshot contains
+                        /\ (cfg.tty = -1) = (cfg.tf = -1)
+                        /\ cfg.tty # -1 => cfg.tty \in TargetSet[sn] /\ TargetChanges(cfg.filt, cfg.tty, cfg.tf)
 \* the protocol makes every relation observable: loads come in pairs; the XML trip follows its pair; a finished history
 \* with an INCLUDE_DISALLOWED load has the load of the same filter preset without the flag (before or after it: the
 \* trace specification relates them whichever comes first) whenever the tuple has both flag words
 IsLoad(k) == hist[k][1] = "load"
 ProtocolOK ==
-  /\ \A k \in DOMAIN hist : (IsLoad(k) /\ hist[k][2] = 1) => k > 1 /\ hist[k - 1] = <<"load", 0, hist[k][3], hist[k][4]>>
+  /\ \A k \in DOMAIN hist : (IsLoad(k) /\ hist[k][2] = 1) => k > 1 /\ hist[k - 1] = <<"load", 0, hist[k][3], hist[k][4], hist[k][5], hist[k][6]>>
   /\ \A k \in DOMAIN hist : hist[k][1] = "xml_import" => k > 2 /\ IsLoad(k - 1) /\ IsLoad(k - 2)
   /\ pc = "done" =>
        \A k \in DOMAIN hist : (IsLoad(k) /\ Bit(hist[k][4], FLAG_INCLUDE_DISALLOWED)) =>
           ((\E j \in DOMAIN cfg.flagseq : cfg.flagseq[j] = hist[k][4] - FLAG_INCLUDE_DISALLOWED)
-             => \E j \in DOMAIN hist : IsLoad(j) /\ hist[j][3] = hist[k][3] /\ hist[j][4] = hist[k][4] - FLAG_INCLUDE_DISALLOWED)
+             => \E j \in DOMAIN hist : IsLoad(j) /\ hist[j][3] = hist[k][3] /\ hist[j][5] = hist[k][5] /\ hist[j][6] = hist[k][6]
+                                          /\ hist[j][4] = hist[k][4] - FLAG_INCLUDE_DISALLOWED)
   /\ pc = "done" => Cardinality({k \in DOMAIN hist : IsLoad(k)}) = 2 * Len(cfg.flagseq)
 
 EmitDone == (~SimMode /\ pc = "done") => PrintT(<<"TUPLE", ToJson(hist)>>)
